@@ -297,7 +297,11 @@ func Solve(o *Obligation, dir string, idx int, timeoutS int, thorough bool) *Sol
 			if s.name == res.Solver {
 				continue
 			}
-			st, _, _ := runSolver(context.Background(), s, file, timeoutS)
+			ct := timeoutS
+			if ct > 20 {
+				ct = 20 // a confirmation is a bonus, not a proof step: do not wait long for the weaker solvers
+			}
+			st, _, _ := runSolver(context.Background(), s, file, ct)
 			res.Tried = append(res.Tried, s.name+":"+st)
 			if st == "unsat" {
 				res.Confirm++
